@@ -1,19 +1,35 @@
 """C17 — configured resource limits hold at all times and reservations balance (module family Limits*).
 
 The check is a LIST OF SUB-CHECKS (SUBCHECKS at the bottom); each one = exhaustive TLC run(s) of its design
-module + a driver mode of harness/c17 on the real code + TLC trace validation of the recorded histories.
-More sub-checks (session level) are appended to SUBCHECKS.
+module + a driver mode of harness/c17 on the real code + TLC trace validation of the recorded histories
+(spec/LimitsTrace.tla holds the common acceptance machinery).  More sub-checks (session level: connection caps,
+upload queue, request pipeline, web-seed caps, rate limits, generated configurations) are appended to SUBCHECKS
+together with their REQUIRED obligation tags.
 
-  rm     spec/LimitsRM.tla (counting object) + LimitsRMProto.tla (goroutines/channels as rendezvous steps)
+  rm     LimitsRM.tla (counting object) + LimitsRMProto.tla (goroutines/channels as rendezvous steps),
          MC_LimitsRM_*.cfg, Trace_LimitsRM        real internal/resourcemanager under concurrent callers
-  cache  spec/LimitsCache.tla (two-lock level)   MC_LimitsCache_*.cfg, Trace_LimitsCache
-  addr   spec/LimitsAddr.tla                      MC_LimitsAddr.cfg, Trace_LimitsAddr
-  sem    spec/LimitsSem.tla                       MC_LimitsSem.cfg, Trace_LimitsSem
+  cache  LimitsCache.tla (cache object) + LimitsCacheProto.tla (two locks, semaphore, TTL timers),
+         MC_LimitsCache_*.cfg, Trace_LimitsCache  real internal/piececache: op sequences + gated concurrent readers
+  addr   LimitsAddr.tla (counters) + LimitsAddrProto.tla (transcription of Push/Pop/Reset),
+         MC_LimitsAddr*.cfg, Trace_LimitsAddr     real internal/addrlist: capacity and per-source counts only
+  sem    LimitsSem.tla + LimitsSemProto.tla, MC_LimitsSem_*.cfg, Trace_LimitsSem   real internal/semaphore
+  (internal/bufferpool is a bare sync.Pool wrapper without counters or limits: nothing to judge for C17.)
+
+Development aids (not part of the interface): C17_ONLY=rm,cache,... runs a subset; C17_SKIP_MC=1 skips the design-level
+MC runs (they do not depend on /repo; used for mutation smoke tests).
 """
 import json, os, re
 import vlib
 
 # ----------------------------------------------------------------------------------------------- helpers
+
+def mc(ctx, module, cfg, **kw):
+    """Design-level exhaustive run; C17_SKIP_MC=1 (development aid for mutation smoke tests: the design models do not
+    depend on /repo) skips it."""
+    if os.environ.get("C17_SKIP_MC"):
+        return True, ""
+    return ctx.tlc_mc(module, cfg, **kw)
+
 
 def read_traces(path):
     """Split a driver output file into histories (lists of event dicts); each starts with an Init event."""
@@ -132,8 +148,36 @@ def judge(ctx, module, traces, describe, chunk=400, timeout=900):
             # histories before the rejected one were accepted in this run; continue behind it
             ctx.cov["traces_validated_against_impl"] += idx
             remaining = remaining[idx + 1:]
+            nbad = ctx.extra.get("unexplained_histories", 0) + 1
+            ctx.extra["unexplained_histories"] = nbad
+            if nbad >= 4 and ctx.violations:
+                # the verdict is settled (exit 1); every further violating history would cost two more TLC runs
+                vlib.log("%s: %d histories with failed obligations reported; the remaining %d histories are not judged"
+                         % (module, nbad, len(remaining) + max(0, len(traces) - start - chunk)))
+                return
         else:
             raise vlib.MachineryError("too many violating histories in one chunk")
+
+
+def selftest(ctx, module, traces, pick, mutate, expect):
+    """Binding demonstration (./check C17 --selftest): corrupt one recorded field of an accepted history and require
+    that TLC rejects it with the expected obligation tag."""
+    if not getattr(ctx, "selftest", False):
+        return
+    import copy
+    t = next((t for t in traces if pick(t) and not any(e["op"] in ("Hang", "Crash") for e in t)), None)
+    if t is None:
+        raise vlib.MachineryError("selftest %s: no suitable history" % module)
+    t = copy.deepcopy(t)
+    mutate(t)
+    one = ctx.path("selftest.ndjson")
+    write_traces(one, [t, [{"op": "End"}]])
+    r = ctx.tlc_validate(module, one, cfg=module + "_diag.cfg", ntraces=0)
+    mv = re.search(r'@@VIOL\s+(-?\d+)\s+(-?\d+)\s+(-?\d+)\s*([^"\s]*)', r["out"])
+    if r["ok"] or not mv or not mv.group(4).startswith(expect):
+        raise vlib.MachineryError("selftest %s: corrupted history was not rejected with %s (%s)" % (module, expect, mv.group(0) if mv else r["ok"]))
+    vlib.log("selftest %s: corrupted field rejected with %s" % (module, mv.group(4)))
+    ctx.extra.setdefault("selftest", {})[module] = mv.group(4)
 
 
 def count_histories(ctx, traces, keyf, nontrivial):
@@ -201,21 +245,25 @@ def check_rm(ctx, drv):
     # 1. design level.  The repaired protocol (caller always answered) is deadlock-free and refines the counting
     #    object for ALL interleavings incl. cancel-before-request, concurrent cancel and Close racing with calls;
     #    the protocol AS IT IS is fine under the strict calling discipline ...
-    ctx.tlc_mc("MC_LimitsRM", "MC_LimitsRM_fixed.cfg", timeout=900)
-    ctx.tlc_mc("MC_LimitsRM", "MC_LimitsRM_asis_disc.cfg", timeout=900)
+    mc(ctx, "MC_LimitsRM", "MC_LimitsRM_fixed.cfg", timeout=2400)
+    mc(ctx, "MC_LimitsRM", "MC_LimitsRM_asis_disc.cfg", timeout=900)
     if not ctx.quick():
-        ctx.tlc_mc("MC_LimitsRM", "MC_LimitsRM_fixed5.cfg", timeout=1500)
-        ctx.tlc_mc("MC_LimitsRM", "MC_LimitsRM_live.cfg", timeout=900)
+        mc(ctx, "MC_LimitsRM", "MC_LimitsRM_fixed5.cfg", timeout=1500)
+        mc(ctx, "MC_LimitsRM", "MC_LimitsRM_live.cfg", timeout=900)
     # ... and the model of the code AS IT IS predicts a hang once a cancel channel is closed before the Request
     #     (informative: the verdict comes from the real manager below)
-    ok, out = ctx.tlc_mc("MC_LimitsRM", "MC_LimitsRM_asis.cfg", timeout=600, expect_ok=False)
+    ok, out = mc(ctx, "MC_LimitsRM", "MC_LimitsRM_asis.cfg", timeout=600, expect_ok=False)
     ctx.extra["rm_model_asis_precancel"] = "no error" if ok else ("violates " + ",".join(sorted(set(re.findall(r"Invariant (\w+) is violated", out)))) or "deadlock")
     if not ctx.quick():
-        ok, out = ctx.tlc_mc("MC_LimitsRM", "MC_LimitsRM_wakeup.cfg", timeout=600, expect_ok=False)
+        ok, out = mc(ctx, "MC_LimitsRM", "MC_LimitsRM_wakeup.cfg", timeout=600, expect_ok=False)
         ctx.extra["rm_model_lost_wakeup"] = "not reachable" if ok else "reachable (design observation, not an obligation of C17)"
+        ok, out = mc(ctx, "MC_LimitsRM", "MC_LimitsRM_asis_close.cfg", timeout=600, expect_ok=False)
+        ctx.extra["rm_model_asis_close_racing_with_request"] = ("no error" if ok else "manager can be left waiting in handleRequest for a caller that "
+                                                                "returned through closeC, Close() then never returns (the session only closes the "
+                                                                "manager after all torrents have stopped, so not reachable there; design observation)")
     # 2. the real manager
     ops = ctx.pick(10, 14)
-    plan = [("disc", ctx.pick(120, 1500)), ("pre", ctx.pick(8, 60)), ("during", ctx.pick(30, 300))]
+    plan = [("disc", ctx.pick(120, 1000)), ("pre", ctx.pick(8, 60)), ("during", ctx.pick(30, 300))]
     alltraces = []
     for k, (mode, n) in enumerate(plan):
         out, crashes = run_driver(ctx, drv, "rm", mode, n, ops, k)
@@ -234,13 +282,17 @@ def check_rm(ctx, drv):
             ctx.sample({"rm_history_prefix": traces[0][:10]})
         alltraces += traces
     judge(ctx, "Trace_LimitsRM", alltraces, rm_describe, chunk=ctx.pick(400, 500))
+
+    def corrupt_rm(t):
+        e = next(e for e in t if e["op"] == "call" and e["f"] == "Stats" and e["hung"] == 0)
+        e["size"] += 1
+    selftest(ctx, "Trace_LimitsRM", alltraces, lambda t: t[0]["mode"] == "disc" and any(e["op"] == "call" and e["f"] == "Stats" for e in t),
+             corrupt_rm, "C17.rm.balance")
     # 3. measurement of the design observation on the real manager (never a verdict)
     out, _ = run_driver(ctx, drv, "rm", "wakeup", ctx.pick(12, 40), 0, 9)
     _, notes = rm_annotate(read_traces(out))
     lost = sum(1 for e in notes if e.get("notified") != 1)
     ctx.extra["rm_lost_wakeup_real"] = "%d of %d trials: a fitting waiter was not served until another event arrived" % (lost, len(notes))
-    if ctx.obligation_counts.get("C17.rm.notify", 0) == 0:
-        raise vlib.MachineryError("rm: no notification was ever exercised")
 
 
 # ----------------------------------------------------------------------------------------------- Cache
@@ -278,16 +330,17 @@ def cache_describe(t, pos, tag):
 
 def check_cache(ctx, drv):
     # design level: the repaired two-lock model keeps every invariant and refines the cache object ...
-    ctx.tlc_mc("MC_LimitsCache", "MC_LimitsCache_q1.cfg", timeout=900)
-    ctx.tlc_mc("MC_LimitsCache", "MC_LimitsCache_zero.cfg", timeout=900)
+    mc(ctx, "MC_LimitsCache", "MC_LimitsCache_q1.cfg", timeout=2400)
+    mc(ctx, "MC_LimitsCache", "MC_LimitsCache_zero.cfg", timeout=2400)
+    mc(ctx, "MC_LimitsCache", "MC_LimitsCache_q3.cfg", timeout=2400)
     if not ctx.quick():
-        ctx.tlc_mc("MC_LimitsCache", "MC_LimitsCache_q2.cfg", timeout=1500)
-        ctx.tlc_mc("MC_LimitsCache", "MC_LimitsCache_fixed3.cfg", timeout=1500)
-        ctx.tlc_mc("MC_LimitsCache", "MC_LimitsCache_asis_fits.cfg", timeout=1500)
+        mc(ctx, "MC_LimitsCache", "MC_LimitsCache_q2.cfg", timeout=1500)
+        mc(ctx, "MC_LimitsCache", "MC_LimitsCache_zero_ttl.cfg", timeout=1500)
+        mc(ctx, "MC_LimitsCache", "MC_LimitsCache_asis_fits.cfg", timeout=1500)
     # ... the model of the code AS IT IS predicts two crashes (informative; verdicts come from the real cache below)
     for cfg, key in (("MC_LimitsCache_asis_big.cfg", "cache_model_asis_value_larger_than_cache"),
                      ("MC_LimitsCache_asis_clear.cfg", "cache_model_asis_clear_vs_expired_timer")):
-        ok, out = ctx.tlc_mc("MC_LimitsCache", cfg, timeout=600, expect_ok=False)
+        ok, out = mc(ctx, "MC_LimitsCache", cfg, timeout=600, expect_ok=False)
         ctx.extra[key] = "no error" if ok else "violates " + ",".join(sorted(set(re.findall(r"Invariant (\w+) is violated", out))))
     # the real cache
     plan = [("cache", ctx.pick(120, 1200), ctx.pick(14, 20)), ("cacheconc", ctx.pick(120, 1000), 0)]
@@ -308,6 +361,11 @@ def check_cache(ctx, drv):
             ctx.sample({sub + "_history_prefix": traces[0][:8]})
         alltraces += traces
     judge(ctx, "Trace_LimitsCache", alltraces, cache_describe, chunk=ctx.pick(400, 600))
+
+    def corrupt_cache(t):
+        e = next(e for e in t if e["op"] == "Snap" and e["ents"])
+        e["size"] += 1
+    selftest(ctx, "Trace_LimitsCache", alltraces, lambda t: any(e["op"] == "Snap" and e["ents"] for e in t), corrupt_cache, "C17.cache")
 
 
 # ----------------------------------------------------------------------------------------------- AddrList
@@ -332,8 +390,8 @@ def addr_describe(t, pos, tag):
 
 
 def check_addr(ctx, drv):
-    ctx.tlc_mc("MC_LimitsAddr", "MC_LimitsAddr.cfg", timeout=600)
-    ctx.tlc_mc("MC_LimitsAddr", "MC_LimitsAddr_zero.cfg", timeout=600)
+    mc(ctx, "MC_LimitsAddr", "MC_LimitsAddr.cfg", timeout=600)
+    mc(ctx, "MC_LimitsAddr", "MC_LimitsAddr_zero.cfg", timeout=600)
     out, crashes = run_driver(ctx, drv, "addr", "", ctx.pick(200, 3000), ctx.pick(25, 40), 40)
     traces = addr_prepare(read_traces(out))
     for t in traces:
@@ -345,6 +403,12 @@ def check_addr(ctx, drv):
     if traces:
         ctx.sample({"addr_history_prefix": traces[0][:8]})
     judge(ctx, "Trace_LimitsAddr", traces, addr_describe, chunk=1000)
+
+    def corrupt_addr(t):
+        e = next(e for e in t if e["op"] == "Push" and e["len"] > 0)
+        e["cnt"] = list(e["cnt"])
+        e["cnt"][e["src"] - 1] += 1
+    selftest(ctx, "Trace_LimitsAddr", traces, lambda t: any(e["op"] == "Push" and e["len"] > 0 for e in t), corrupt_addr, "C17.addr.balance")
 
 
 # ----------------------------------------------------------------------------------------------- Semaphore
@@ -364,10 +428,10 @@ def sem_describe(t, pos, tag):
 
 
 def check_sem(ctx, drv):
-    ctx.tlc_mc("MC_LimitsSem", "MC_LimitsSem_fixed.cfg", timeout=600)
-    ctx.tlc_mc("MC_LimitsSem", "MC_LimitsSem_asis_core.cfg", timeout=600)
+    mc(ctx, "MC_LimitsSem", "MC_LimitsSem_fixed.cfg", timeout=600)
+    mc(ctx, "MC_LimitsSem", "MC_LimitsSem_asis_core.cfg", timeout=600)
     if not ctx.quick():
-        ok, out = ctx.tlc_mc("MC_LimitsSem", "MC_LimitsSem_asis.cfg", timeout=600, expect_ok=False)
+        ok, out = mc(ctx, "MC_LimitsSem", "MC_LimitsSem_asis.cfg", timeout=600, expect_ok=False)
         ctx.extra["sem_model_asis_len_gauge"] = ("within capacity" if ok else
                                                  "Len() can exceed the capacity for an instant in the model of Signal as it is (Release before "
                                                  "active--); never observed on the real code (see sem stress samples) - design observation, no verdict")
@@ -384,8 +448,18 @@ def check_sem(ctx, drv):
     ctx.extra["sem_stress_len_samples"] = nsamples
     judge(ctx, "Trace_LimitsSem", traces, sem_describe, chunk=400)
 
+    def corrupt_sem(t):
+        e = next(e for e in t if e["op"] == "Obs")
+        e["len"] = t[0]["cap"] + 1
+    selftest(ctx, "Trace_LimitsSem", traces, lambda t: any(e["op"] == "Obs" for e in t), corrupt_sem, "C17.sem.len")
+
 
 # ----------------------------------------------------------------------------------------------- registry
+
+REQUIRED = {"rm": ("C17.rm.limit", "C17.rm.balance", "C17.rm.handshake", "C17.rm.notify", "C17.rm.cancel_before_request"),
+            "cache": ("C17.cache.limit", "C17.cache.balance", "C17.cache.value", "C17.cache.parallel", "C17.cache.smallcfg"),
+            "addr": ("C17.addr.limit", "C17.addr.balance", "C17.addr.atcapacity"),
+            "sem": ("C17.sem.limit", "C17.sem.len")}
 
 SUBCHECKS = [("rm", check_rm), ("cache", check_cache), ("addr", check_addr), ("sem", check_sem)]
 
@@ -404,3 +478,7 @@ def run(ctx):
             continue
         vlib.log("C17 sub-check", name)
         fn(ctx, drv)
+        # vacuity guard: every core obligation of the sub-check must have been evaluated on real-code events
+        for tag in REQUIRED.get(name, ()):
+            if ctx.obligation_counts.get(tag, 0) == 0:
+                raise vlib.MachineryError("sub-check %s: obligation %s was never evaluated" % (name, tag))
